@@ -23,7 +23,7 @@ pub struct FileCase {
 }
 
 pub fn ctor() -> BoxedStrategy<Ctor> {
-    prop_oneof![Just(Ctor::Plain), Just(Ctor::Single)].boxed()
+    prop_oneof![3 => Just(Ctor::Plain), 3 => Just(Ctor::Single), 2 => Just(Ctor::Converted)].boxed()
 }
 
 pub fn finish() -> BoxedStrategy<Finish> {
